@@ -20,7 +20,20 @@
 // anchor), when one of the imports is already aliased, or when -yield is
 // requested for a file without channel operations.
 //
-// usage: go run main.go -repo /repo -work $VERIF_WORK [-yield a.go,b.go] file...
+// For files listed with -engine (implies -yield) the imports "time", "reflect"
+// and "github.com/lni/goutils/syncutil" are redirected as well (vtime,
+// vreflect, vsyncutil), and every BLOCKING channel statement gets a scheduler
+// wait in front of it instead of a plain yield: a select without default
+// becomes
+//
+//	vsched.SelectWait(vsched.R(a), vsched.S(b)); select { case <-vsched.Pick(0, a): ... case vsched.PickS(1, b) <- x: ... }
+//
+// (the thread is disabled until a case is ready; Pick leaves only the first
+// ready case selectable, so the runtime's random choice among ready cases is
+// replaced by a deterministic one), and a plain send / receive statement gets
+// vsched.ChanWait(...). All insertions stay on the original line.
+//
+// usage: go run main.go -repo /repo -work $VERIF_WORK [-yield a.go,b.go] [-engine c.go] file...
 package main
 
 import (
@@ -57,6 +70,7 @@ func main() {
 	repo := flag.String("repo", os.Getenv("VERIF_REPO"), "repository root")
 	work := flag.String("work", os.Getenv("VERIF_WORK"), "work directory")
 	yield := flag.String("yield", "", "comma separated files (of the list) that get vsched.Yield() before channel operations")
+	engine := flag.String("engine", "", "comma separated files (of the list) that additionally get time/reflect/syncutil shims and waits before blocking channel statements")
 	flag.Parse()
 	if *repo == "" || *work == "" || flag.NArg() == 0 {
 		fail("need -repo, -work and at least one file")
@@ -64,6 +78,13 @@ func main() {
 	yl := map[string]bool{}
 	for _, f := range strings.Split(*yield, ",") {
 		if f != "" {
+			yl[f] = true
+		}
+	}
+	el := map[string]bool{}
+	for _, f := range strings.Split(*engine, ",") {
+		if f != "" {
+			el[f] = true
 			yl[f] = true
 		}
 	}
@@ -95,7 +116,7 @@ func main() {
 		if err != nil {
 			fail("cannot read target %s: %v", src, err)
 		}
-		out, nImp, nYield := rewrite(rel, data, yl[rel])
+		out, nImp, nYield := rewrite(rel, data, yl[rel], el[rel])
 		dst := filepath.Join(outDir, strings.ReplaceAll(rel, "/", "__"))
 		if err := os.WriteFile(dst, out, 0o644); err != nil {
 			fail("%v", err)
@@ -113,7 +134,7 @@ func main() {
 	}
 }
 
-func rewrite(rel string, data []byte, withYield bool) ([]byte, int, int) {
+func rewrite(rel string, data []byte, withYield bool, engine bool) ([]byte, int, int) {
 	fset := token.NewFileSet()
 	file, err := parser.ParseFile(fset, rel, data, parser.ParseComments)
 	if err != nil {
@@ -130,6 +151,21 @@ func rewrite(rel string, data []byte, withYield bool) ([]byte, int, int) {
 			repl = vsync
 		case `"sync/atomic"`:
 			repl = vatom
+		case `"time"`:
+			if !engine {
+				continue
+			}
+			repl = `time "` + kit + `vtime"`
+		case `"reflect"`:
+			if !engine {
+				continue
+			}
+			repl = `reflect "` + kit + `vreflect"`
+		case `"github.com/lni/goutils/syncutil"`:
+			if !engine {
+				continue
+			}
+			repl = `syncutil "` + kit + `vsyncutil"`
 		case `"` + kit + `vsync"`, `"` + kit + `vatomic"`, `"` + kit + `vsched"`:
 			fail("%s already imports a verifkit shim", rel)
 		default:
@@ -158,8 +194,18 @@ func rewrite(rel string, data []byte, withYield bool) ([]byte, int, int) {
 		if len(offs) == 0 {
 			fail("ANCHOR MISSING: -yield requested for %s but it contains no channel operation", rel)
 		}
+		waits := map[int]string{}
+		if engine {
+			var extra []splice
+			waits, extra = blockingWaits(file, tf, data)
+			sp = append(sp, extra...)
+		}
 		for _, o := range offs {
-			sp = append(sp, splice{o, o, "vsched.Yield(); "})
+			sp = append(sp, splice{o, o, "vsched.Yield(); " + waits[o]})
+			delete(waits, o)
+		}
+		if len(waits) != 0 {
+			fail("%s: blocking channel statement that is not a yield site: %v", rel, waits)
 		}
 		nYield = len(offs)
 		// import vsched on the line of the first redirected import; a lone
@@ -270,4 +316,90 @@ func yieldOffsets(file *ast.File, tf *token.File) []int {
 	}
 	sort.Ints(offs)
 	return offs
+}
+
+// blockingWaits returns, per statement offset (the same offsets yieldOffsets
+// marks), the wait call to insert, plus the Pick splices inside selects.
+func blockingWaits(file *ast.File, tf *token.File, data []byte) (map[int]string, []splice) {
+	waits := map[int]string{}
+	var sp []splice
+	src := func(e ast.Expr) string { return string(data[tf.Offset(e.Pos()):tf.Offset(e.End())]) }
+	inSelectComm := map[ast.Node]bool{}
+	// statement-list membership: a plain send / receive statement directly in a block
+	var visitList func(list []ast.Stmt)
+	recvOf := func(st ast.Stmt) ast.Expr {
+		switch x := st.(type) {
+		case *ast.ExprStmt:
+			if u, ok := x.X.(*ast.UnaryExpr); ok && u.Op == token.ARROW {
+				return u.X
+			}
+		case *ast.AssignStmt:
+			if len(x.Rhs) == 1 {
+				if u, ok := x.Rhs[0].(*ast.UnaryExpr); ok && u.Op == token.ARROW {
+					return u.X
+				}
+			}
+		}
+		return nil
+	}
+	visitList = func(list []ast.Stmt) {
+		for _, st := range list {
+			off := tf.Offset(st.Pos())
+			switch x := st.(type) {
+			case *ast.SelectStmt:
+				hasDefault := false
+				for _, c := range x.Body.List {
+					if c.(*ast.CommClause).Comm == nil {
+						hasDefault = true
+					}
+				}
+				for _, c := range x.Body.List {
+					cc := c.(*ast.CommClause)
+					if cc.Comm != nil {
+						inSelectComm[cc.Comm] = true
+					}
+				}
+				if hasDefault {
+					continue
+				}
+				var args []string
+				for i, c := range x.Body.List {
+					cc := c.(*ast.CommClause)
+					if snd, ok := cc.Comm.(*ast.SendStmt); ok {
+						args = append(args, "vsched.S("+src(snd.Chan)+")")
+						sp = append(sp, splice{tf.Offset(snd.Chan.Pos()), tf.Offset(snd.Chan.Pos()), fmt.Sprintf("vsched.PickS(%d, ", i)})
+						sp = append(sp, splice{tf.Offset(snd.Chan.End()), tf.Offset(snd.Chan.End()), ")"})
+					} else if ch := recvOf(cc.Comm); ch != nil {
+						args = append(args, "vsched.R("+src(ch)+")")
+						sp = append(sp, splice{tf.Offset(ch.Pos()), tf.Offset(ch.Pos()), fmt.Sprintf("vsched.Pick(%d, ", i)})
+						sp = append(sp, splice{tf.Offset(ch.End()), tf.Offset(ch.End()), ")"})
+					} else {
+						fail("unsupported comm clause at %v", tf.Position(cc.Pos()))
+					}
+				}
+				waits[off] = "vsched.SelectWait(" + strings.Join(args, ", ") + "); "
+			case *ast.SendStmt:
+				waits[off] = "vsched.ChanWait(vsched.S(" + src(x.Chan) + ")); "
+			default:
+				if ch := recvOf(st); ch != nil {
+					waits[off] = "vsched.ChanWait(vsched.R(" + src(ch) + ")); "
+				}
+			}
+		}
+	}
+	ast.Inspect(file, func(n ast.Node) bool {
+		switch x := n.(type) {
+		case *ast.BlockStmt:
+			visitList(x.List)
+		case *ast.CaseClause:
+			visitList(x.Body)
+		case *ast.CommClause:
+			visitList(x.Body)
+		case *ast.RangeStmt:
+			// `for range ch` cannot be recognised without type information; the
+			// engine files do not use it (a channel range would block for real)
+		}
+		return true
+	})
+	return waits, sp
 }
